@@ -1632,6 +1632,9 @@ impl<'a> Sim<'a> {
                             OpRes::Err(ErrSum::QuotaExceeded) => {
                                 m.expect_refused.is_some() || !self.cfg.auto_settle
                             }
+                            // a SUBSCRIBE inside the subscription-identifier band of the server's
+                            // Maximum Packet Size: refusing it is as good as sending it
+                            OpRes::Err(ErrSum::MaximumPacketSizeExceeded) => m.size_unclear,
                             OpRes::Ok => m.kind == OpKind::Pub0,
                             _ => false,
                         }
